@@ -1377,7 +1377,7 @@ def check(run, tier, report):
             problems.setdefault('%s [%s]' % (tag, e[2]), []).append(v[0])
         for k, v in r['limits'].items():
             limits.setdefault('%s [%s]' % (tag, e[2]), []).append(v[0])
-    ev.update({'table_entries': len(E), 'calls_observed': n_calls, 'entries_absent_from_installed_libraries': absent,
+    ev.update({'table_entries': len(E), 'calls_observed': n_calls, 'entries_absent_from_installed_libraries_or_without_receiver_in_the_pool': absent,
                'entries_not_exercised': unexercised, 'excused': EXCUSED, 'seconds_tables': round(dt, 1),
                'discrepancies': {k: v[:3] for k, v in problems.items()},
                'object_dtype_limitation_hits': {k: v[:1] for k, v in list(limits.items())[:12]},
